@@ -1997,10 +1997,30 @@ impl Server {
     }
 
     pub fn notify_proxys(&mut self, request: WorkerRequest) {
-        if let Err(e) = self.config_state.dispatch(&request.content) {
-            error!("Could not execute order on config state: {}", e);
-        }
+        // The worker's own view of the configuration (what the queries
+        // answer) only records an order once the proxies have accepted it: an
+        // order answered with a failure must leave no trace in that view.
+        let recorded_request = request.content.clone();
+        let recorded_id = request.id.clone();
+        let responses_before = QUEUE.with(|queue| queue.borrow().len());
 
+        self.apply_to_proxys(request);
+
+        let refused = QUEUE.with(|queue| {
+            queue
+                .borrow()
+                .iter()
+                .skip(responses_before)
+                .any(|response| response.id == recorded_id && response.is_failure())
+        });
+        if !refused {
+            if let Err(e) = self.config_state.dispatch(&recorded_request) {
+                error!("Could not execute order on config state: {}", e);
+            }
+        }
+    }
+
+    fn apply_to_proxys(&mut self, request: WorkerRequest) {
         let req_id = request.id.clone();
 
         match request.content.request_type {
